@@ -50,7 +50,7 @@ impl Check for C01 {
 
     fn gen(&self, seed: u64, spec_seed: u64, tier: Tier) -> Case {
         let mut rng = Rng::new(seed);
-        let spec = cases::spec_for(spec_seed, &SpecOpts::default());
+        let spec = cases::spec_for(spec_seed, &SpecOpts { shapes: true, ..Default::default() });
         let mut o = cases::doc_opts_for(tier, &mut rng);
         o.noncanonical_pct = 0;
         o.raw_pct = *rng.pick(&[0u64, 0, 8, 20]);
